@@ -307,7 +307,7 @@ def reductions(key):
         if k == 'comment':
             if a != 'in':
                 yield rep(i, i, [(k, 'in', b, c, d, l)])
-            if b == 'bs':
+            if b != '':
                 yield rep(i, i, [(k, a, '', c, d, l)])
         if k == 'blank' and a != 'empty':
             yield rep(i, i, [(k, 'empty', b, c, d, l)])
@@ -316,14 +316,14 @@ def reductions(key):
                 yield rep(i, i, [(k, 'plain', b, c, d, l)])
             if b == 'q1':       # -> triple quoted, the backslashes may stay
                 yield rep(i, i, [(k, a, 'q3', c, d, l)])
-            if c == 'bs' and b == 'q3':
+            if c != '' and b == 'q3':
                 yield rep(i, i, [(k, a, b, '', d, l)])
             if d != 'asg':
                 yield rep(i, i, [(k, a, b, c, 'asg', l)])
         if k == 'strmid':
             if a != 'in':
                 yield rep(i, i, [(k, 'in', b, c, d, l)])
-            if b == 'bs':
+            if b != '':
                 yield rep(i, i, [(k, a, '', c, d, l)])
         if k == 'strclose' and a != 'in':
             yield rep(i, i, [(k, 'in', b, c, d, l)])
@@ -371,6 +371,8 @@ def features(key):
             name = 'comment'
             if b == 'bs':
                 name += '-trailing-backslash'
+            if b == 'bsws':
+                name += '-trailing-backslash-blank'
             if a != 'in':
                 name += '-' + _IND_NAME[a]
             fs.add(name)
@@ -391,6 +393,8 @@ def features(key):
             fs.add(name)
             if c == 'bs' and b == 'q3':
                 fs.add(strkind + '-backslash-newline')
+            if c == 'bsws':
+                fs.add(strkind + '-backslash-blank-newline')
             if d == 'expr':
                 fs.add('string-expression-statement')
         elif k == 'strmid':
@@ -400,11 +404,13 @@ def features(key):
                 fs.add('string-interior-line')
             if b == 'bs':
                 fs.add(strkind + '-backslash-newline')
+            if b == 'bsws':
+                fs.add(strkind + '-backslash-blank-newline')
         elif k == 'strclose' and a != 'in':
             fs.add('string-close-' + _IND_NAME[a])
     # a multi-line string is implied by the more specific backslash-newline feature
     for nm in _KIND_NAME.values():
-        if nm + '-backslash-newline' in fs:
+        if nm + '-backslash-newline' in fs or nm + '-backslash-blank-newline' in fs:
             fs.discard('multiline-' + nm)
             fs.discard('string-interior-line')
     return sorted(fs)
